@@ -64,11 +64,8 @@ def check_suspend_result(ctx, fb, rule):
         ctx.instance(rule, key + ' :: ' + f.cls[:100], None)
         rets = [x for x in f.own_nodes() if x['k'] == 'ReturnStmt' and x.get('ch')]
         for r in rets:
-            c = f.sn(r['ch'][0])
-            neg = False
-            while c['k'] == 'UnaryOperator' and c['op'] == '!':
-                neg = not neg
-                c = f.sn(c['ch'][0])
+            j, neg = f.resolve_neg(r['ch'][0])  # through `!` and named locals (const bool last = ...; return !last)
+            c = f.nodes[j]
             last = c.get('cn', '').split('::')[-1]
             if c.get('v') is not None and c['k'] != 'CXXMemberCallExpr':
                 # constant: `return false` (CurrentAwaiter<false>) = never suspends, `return true` after a resume call
